@@ -126,7 +126,7 @@ func ruleP07Chunks(p *Prog, r *Report) {
 		r.undecided(rule, "floor", "-", "found %d chunk stores, expected the regular and the final one", n)
 	}
 	for _, ret := range returnsOf(f) {
-		r.check(strip(ret.Results[0]) == ssa.Value(mk), rule, "returned", p.instrPos(ret), "the chunks built are returned", "the chunks returned are not the ones built")
+		r.check(strip(retResult(ret, 0)) == ssa.Value(mk), rule, "returned", p.instrPos(ret), "the chunks built are returned", "the chunks returned are not the ones built")
 	}
 }
 
@@ -261,7 +261,7 @@ func ruleP13EntryTypes(p *Prog, r *Report) {
 	dnf := func(h *ssa.Function) (string, bool) {
 		var out []string
 		for _, ret := range returnsOf(h) {
-			alts, ok := truthAlts(ret.Results[0], 0)
+			alts, ok := truthAlts(retResult(ret, 0), 0)
 			if !ok {
 				return "", false
 			}
@@ -374,7 +374,7 @@ func ruleP09Notation(p *Prog, r *Report) {
 		}
 		for _, ret := range returnsOf(f) {
 			var leaves []ssa.Value
-			catLeaves(ret.Results[0], &leaves, 0)
+			catLeaves(retResult(ret, 0), &leaves, 0)
 			var parts []string
 			for _, l := range leaves {
 				if s, isS := constString(l); isS {
@@ -526,14 +526,14 @@ func ruleP01SummaryValidated(p *Prog, r *Report) {
 			return c != nil && idx == 0 && sameFn(staticCallee(c), ctor)
 		}
 		for i, ret := range returnsOf(f) {
-			if len(ret.Results) != 2 || typeNameOf(ret.Results[0].Type()) != "EntrySummary" {
+			if len(ret.Results) != 2 || typeNameOf(retResult(ret, 0).Type()) != "EntrySummary" {
 				continue
 			}
-			if isNilConst(ret.Results[0]) {
+			if isNilConst(retResult(ret, 0)) {
 				continue
 			}
 			n++
-			_, inputs := phiCycle(ret.Results[0])
+			_, inputs := phiCycle(retResult(ret, 0))
 			bad := ""
 			for _, in := range inputs {
 				if isNilConst(in) || isCtorResult(in) {
@@ -542,7 +542,7 @@ func ruleP01SummaryValidated(p *Prog, r *Report) {
 				bad = in.String()
 			}
 			r.check(bad == "", rule, fmt.Sprintf("%s:return#%d", fnName(f), i), p.instrPos(ret), "the summary returned is always a value NewEntrySummary validated as a whole", "the entry summary returned is assembled outside NewEntrySummary ("+bad+"): continuation lines are not validated at their position")
-			webPhis, _ := phiCycle(ret.Results[0])
+			webPhis, _ := phiCycle(retResult(ret, 0))
 			inWeb := func(v ssa.Value) bool {
 				v = strip(v)
 				if ph, ok := v.(*ssa.Phi); ok && webPhis[ph] {
@@ -596,7 +596,7 @@ func ruleP01Delims(p *Prog, r *Report) {
 		}
 		var runes []string
 		for _, ret := range returnsOf(f) {
-			alts, ok := truthAlts(ret.Results[0], 0)
+			alts, ok := truthAlts(retResult(ret, 0), 0)
 			if !ok {
 				return "", false
 			}
@@ -701,7 +701,7 @@ func ruleP01Delims(p *Prog, r *Report) {
 	if inner != nil && len(inner.Params) == 1 {
 		okIs = true
 		for _, ret := range returnsOf(inner) {
-			b, isB := constBool(ret.Results[0])
+			b, isB := constBool(retResult(ret, 0))
 			if !isB {
 				okIs = false
 				continue
@@ -777,5 +777,6 @@ func init() {
 	extend("C19", "(P05-write-result) the writer behind the bookmark database replaces the file's content (truncation).", ruleP05WriteResult)
 	extend("C04", "(P17-one-instant) the target date and the time of start/stop/switch come from one reading of the clock.", ruleP17OneInstant)
 	extend("C12", "(P18-cells) every row of the report, gap rows of --fill included, has the table's cell count, so that a filled gap shifts no value into another period's row.", ruleP18Cells)
+	extend("C20", "(P02-diff) service.Diff(should, actual) is actual.Minus(should), which the JSON view may also spell directly.", ruleP02Diff)
 	extend("C10", "(P10-char-units) no byte length of a string is used as error position or length; (P10-format) no format string of a printf-style call contains data (source line, file name, message). Also (P07-errmerge, P07-merge-order): every error list produced by a worker or by re-parsing carried text reaches the merged list, carried text first.", ruleP07ErrMerge, ruleP07MergeOrderAll, ruleP10Format, ruleP10CharUnits)
 }
